@@ -2,6 +2,7 @@ package main
 
 import (
 	"go/token"
+	"go/types"
 
 	"golang.org/x/tools/go/ssa"
 )
@@ -509,6 +510,7 @@ func checkC16(r *Run) {
 	if rm != nil {
 		c.ruleKeepAliveReaction(r4, rm, "R-C16-4")
 		c.ruleKeepAliveCtx(r4, rm)
+		c.ruleLoopLeavesDisconnect(r.Rule("R-C16-6", "when Disconnect is called the reconnect loop leaves the connection to the queued DISCONNECT: it does not close the transport on the `disconnected` path (Closed with an error would be reported instead of Disconnected, and Err() would not stay nil)"), rm)
 	}
 	// --- R-C16-5
 	if c.closedField() == nil {
@@ -564,7 +566,38 @@ func (c *Ctx) ruleKeepAliveReaction(rr *RuleRep, m *reconnModel, tag string) {
 		rr.Bad(key+"/close", clCall.Pos(), "on a keep-alive failure the goroutine closes a different client than the one it watched")
 		return
 	}
-	if _, ok := c.mustFollowFrom(g, fails[0].B.Succs[fails[0].K].Instrs[0], func(x ssa.Instruction) bool { return x == ssa.Instruction(clCall) }, nil); !ok {
+	// the goroutine's own context (the one KeepAlive was given): `if ctxKeepAlive.Err() != nil { return }` — the keep-alive
+	// was stopped by the loop, which closes the connection itself; that way out needs no Close here
+	kaCtx := c.Resolve(kaCall.Call.Args[0])
+	var stopped, live []ifEdge
+	for _, b := range g.Blocks {
+		iff := blockIf(b)
+		if iff == nil {
+			continue
+		}
+		bin, ok := iff.Cond.(*ssa.BinOp)
+		if !ok || (bin.Op != token.NEQ && bin.Op != token.EQL) || !isNilConst(bin.Y) {
+			continue
+		}
+		k, ok := c.Resolve(bin.X).(*ssa.Call)
+		if !ok || !k.Call.IsInvoke() || k.Call.Method.Name() != "Err" || c.Resolve(k.Call.Value) != kaCtx {
+			continue
+		}
+		if bin.Op == token.NEQ {
+			stopped, live = append(stopped, ifEdge{b, 0}), append(live, ifEdge{b, 1})
+		} else {
+			stopped, live = append(stopped, ifEdge{b, 1}), append(live, ifEdge{b, 0})
+		}
+	}
+	isStopped := func(b *ssa.BasicBlock, k int) bool {
+		for _, e := range stopped {
+			if e.B == b && e.K == k {
+				return true
+			}
+		}
+		return false
+	}
+	if _, ok := c.mustFollowFrom(g, fails[0].B.Succs[fails[0].K].Instrs[0], func(x ssa.Instruction) bool { return x == ssa.Instruction(clCall) }, isStopped); !ok {
 		rr.Bad(key+"/close", clCall.Pos(), "a path through the keep-alive failure branch does not close the watched connection")
 		return
 	}
@@ -594,6 +627,21 @@ func (c *Ctx) ruleKeepAliveReaction(rr *RuleRep, m *reconnModel, tag string) {
 	if c.errOrigin(seCall.Call.Args[1]) != ssa.Value(kaCall) {
 		rr.Bad(key+"/record", seCall.Pos(), "the recorded error is not KeepAlive's result")
 		return
+	}
+	// a keep-alive that was stopped (its context cancelled because the connection ended, gracefully or not, or the loop is
+	// leaving) still gets an error from KeepAlive at the next tick: it must not be written into the connection — after a
+	// graceful Disconnect Err() would turn non-nil one ping interval later
+	if !c.keepAliveSilentWhenStopped(ka) {
+		guarded := false
+		for _, e := range live {
+			if DominatedByEdge(g, seCall, e.B, e.K, PathQ{}) {
+				guarded = true
+			}
+		}
+		if !guarded {
+			rr.Bad(key+"/stopped", seCall.Pos(), "the keep-alive goroutine records KeepAlive's error although its own context may have been cancelled: KeepAlive returns the context error at the tick after the connection has ended, so Err() of a gracefully disconnected connection becomes non-nil one ping interval after Disconnect")
+			return
+		}
 	}
 	if !Dominated(g, clCall, func(x ssa.Instruction) bool { return x == ssa.Instruction(seCall) }, PathQ{}) {
 		rr.Bad(key+"/record-before-close", clCall.Pos(), "the watched connection is closed before the keep-alive error is recorded: the reader goroutine's 'closed pipe' error can win SetErrorOnce, and Err()/the Closed callback no longer tell that the peer timed out")
@@ -660,4 +708,74 @@ func (c *Ctx) readerDropsServeError() string {
 		return ""
 	}
 	return "the reader goroutine was not found"
+}
+
+// keepAliveSilentWhenStopped: KeepAlive returns nil when its parent context is done (every return behind the receive from
+// ctx.Done() is nil), so that a stopped keep-alive reports nothing. On the reference tree it returns the context's error.
+func (c *Ctx) keepAliveSilentWhenStopped(ka *ssa.Function) bool {
+	if ka == nil || len(ka.Params) == 0 {
+		return false
+	}
+	ctx := ssa.Value(ka.Params[0])
+	n := 0
+	silent := true
+	eachInstr(ka, func(in ssa.Instruction) {
+		sel, ok := in.(*ssa.Select)
+		if !ok {
+			return
+		}
+		for _, cs := range selectCases(sel) {
+			if cs.State == nil || !cs.HasEdge || cs.State.Dir != types.RecvOnly || !c.isCtxMethodOf(cs.State.Chan, "Done", ctx) {
+				continue
+			}
+			n++
+			reach := ReachableViaEdge(ka, cs.Edge, PathQ{BlockInstr: func(x ssa.Instruction) bool { _, isSel := x.(*ssa.Select); return isSel }})
+			for _, ret := range returnsOf(ka) {
+				if reach[ret] && !isNilConst(c.Resolve(c.errResult(ret))) {
+					silent = false
+				}
+			}
+		}
+	})
+	// and the wait for the tick must itself watch the context, or the goroutine lingers and pings a dead connection
+	return n > 0 && silent
+}
+
+// ruleLoopLeavesDisconnect (R-C16-6): on the way out of the connected-phase wait through the `disconnected` case the loop
+// goroutine does not call Close on the connection. reconnectClient.Disconnect closes `disconnected` first and queues the
+// DISCONNECT behind whatever the task goroutine is doing; a Close by the loop in between ends the reader with "closed
+// pipe", which is recorded and reported as Closed before Disconnect has marked the connection Disconnected.
+func (c *Ctx) ruleLoopLeavesDisconnect(rr *RuleRep, m *reconnModel) {
+	if m.ConnSel == nil {
+		rr.Lost("reconnect-loop/connected-wait", "the wait of the connected phase was not found")
+		return
+	}
+	f := m.F
+	key := FuncName(f) + "/disconnected"
+	closeM := c.Method("BaseClient", "Close")
+	n := 0
+	for _, cs := range selectCases(m.ConnSel) {
+		if cs.State == nil || !cs.HasEdge || cs.State.Dir != types.RecvOnly {
+			continue
+		}
+		if _, isDisc := isFieldLoad(c.Resolve(cs.State.Chan), "reconnectClient", "disconnected"); !isDisc {
+			continue
+		}
+		n++
+		bad := false
+		for in := range ReachableViaEdge(f, cs.Edge, PathQ{BlockInstr: func(x ssa.Instruction) bool { return x == ssa.Instruction(m.Dial) }}) {
+			k, ok := in.(*ssa.Call)
+			if !ok || closeM == nil || c.StaticCalleeOf(&k.Call) != closeM || len(k.Call.Args) == 0 || c.Resolve(k.Call.Args[0]) != m.Cli {
+				continue
+			}
+			bad = true
+			rr.Bad(key, in.Pos(), "the reconnect loop closes the connection itself when `disconnected` fires: the transport can be closed before the queued DISCONNECT has marked the connection Disconnected, so Closed (with a \"closed pipe\" error) is reported and Err() is non-nil after a graceful Disconnect")
+		}
+		if !bad {
+			rr.OK(key, m.ConnSel.Pos(), "the `disconnected` case returns without touching the connection")
+		}
+	}
+	if n == 0 {
+		rr.Lost(key, "the connected-phase wait has no case on `disconnected`")
+	}
 }
